@@ -279,6 +279,23 @@ def check_start_stop(ctx, P, start, stop, mapfield, variant, rule="F9"):
         ctx.ob(rule + ".F9.purge-keyed", "%s|%s" % (tf.name, "+".join(sorted(v))), g, tf.loc(b),
                "rerun removal is guarded by equality of the rerun's name with the stopped search's name" if g else
                "rerun removal is not keyed by the search name")
+    # a search whose table is keyed by the lower-cased name is stopped whatever the letter case its reruns carry: the
+    # comparison that selects the reruns to purge lower-cases the rerun's name
+    if variant in CASE_INSENSITIVE_SEARCHES:
+        cmps = []
+        for g in [tf] + [P.fns[c] for c in P.closures_of.get(tf.name, [])]:
+            gtr = tracer(P, g)
+            for b, t in g.calls():
+                if method(cname(t)) in ("eq", "ne") and len(t["args"]) == 2:
+                    sides = [gtr.operand(a, endpos(g, b)) for a in t["args"]]
+                    pay = [sd for sd in sides if any(x[0] == "downcast" and x[2] == variant for x in walk(sd))]
+                    if pay:
+                        cmps.append((g, b, pay[0]))
+        okn = bool(cmps) and all(is_lowercased(pay) for (_g, _b, pay) in cmps)
+        ctx.ob(rule + ".F9.stop-purge-normalised", "%s|%s" % (tf.name, variant), okn, tf.loc(cmps[0][1]) if cmps and cmps[0][0] is tf else tf.loc(),
+               "the rerun's name is lower-cased before it is compared with the stopped search's key (%d comparison(s))" % len(cmps) if okn else
+               "the purge compares the rerun's name as given (%s) with the lower-cased key: for a name with a capital letter the rerun survives "
+               "the stop and keeps querying" % (show(cmps[0][2])[:60] if cmps else "no comparison found"))
     # the purge must be unavoidable on the path where the search existed
     if rem and info["regions"]:
         rb = rem[0]
